@@ -119,7 +119,7 @@ def run(ck, tier):
     rng = ck.rng
     cases = []
     budget = 120000 if tier == "quick" else 700000
-    ncases = int((80 if tier == "quick" else 900) * sc)
+    ncases = int((80 if tier == "quick" else 500) * sc)
     names = list(ALPHAS)
     # systematic part: every alphabet once at a moderate size, every length and every copy count once
     for a in names:
